@@ -670,10 +670,13 @@ void TzDevice::exec(const std::vector<std::string>& t, int opIndex, Verdict& v, 
               zoneName(c.d.kind, zi), c.tz.isError() ? "the error zone" : "a different zone"), opIndex);
         }
       } else {
-        c.d.kind = K_ERROR;
-        if (opts.armC16 && !c.tz.isError()) {
-          v.fail("c16-create", fmt("manager %s for index/id not in the registry did not return the error zone", how.c_str()), opIndex);
+        c.d.kind = c.tz.isError() ? K_ERROR : K_EMPTY;
+        // by id: the statement's "ids not in the registry [give] the error zone" (same path as a restore).
+        // by index: the statement says nothing; whatever comes back is simply not tracked.
+        if (opts.armC16 && how.size() == 6 && !c.tz.isError()) {
+          v.fail("c16-create", fmt("manager %s for an id not in the registry did not return the error zone", how.c_str()), opIndex);
         }
+        if (c.d.kind == K_EMPTY) return;
       }
     } else if (how == "manual") {
       long sm = tokInt(t, 3, 0), dm = tokInt(t, 4, 0);
